@@ -195,7 +195,7 @@ Definition peek_header (c : cfg) (st0 : rst) : rst * res rerr (N * option dtype 
         let p := get_path (c_sp c) id in
         if all_ids p then
           match implied_stack (c_sp c) p with
-          | Some stk => Some (set_stack st stk true)
+          | Some stk => Some (set_stack st (r_stack st ++ stk) true)   (* masters already open stay open inside the implied parents *)
           | None => None
           end
         else Some st in
